@@ -199,6 +199,67 @@ func unit(ki, mode int) harness.Unit {
 	}}
 }
 
+// reuseUnit: sequences of helper calls in which the caller reuses ONE key buffer and ONE data
+// buffer (overwritten in place between calls) and keeps earlier outputs: every output must equal
+// the stateless definition and must not change when the buffers are reused afterwards.
+func reuseUnit() harness.Unit {
+	return harness.Unit{Name: "caller-buffer-reuse-histories", Run: func(c *harness.Ctx) {
+		sm4.SetIV(make([]byte, 16))
+		iv := make([]byte, 16)
+		lens := []int{0, 5, 16, 33}
+		keyBuf := make([]byte, 16)
+		dataBuf := make([]byte, 64)
+		type kept struct {
+			got, want []byte
+			what      string
+		}
+		var outs []kept
+		for round := 0; round < 2; round++ {
+			for ki := range keys {
+				for mode := 0; mode < 4; mode++ {
+					for _, L := range lens {
+						for _, enc := range []bool{true, false} {
+							copy(keyBuf, keys[ki])
+							pt := pu.Msg(L+mode+round, L)
+							ct := refEnc(mode, keys[ki], iv, pt)
+							var in, want []byte
+							if enc {
+								in, want = dataBuf[:copy(dataBuf, pt)], ct
+							} else {
+								in, want = dataBuf[:copy(dataBuf, ct)], pt
+							}
+							c.Add("evaluations", 1)
+							c.DistinctS("nontrivial", fmt.Sprintf("reuse/%d/%d/%d/%d/%v", round, ki, mode, L, enc))
+							var got []byte
+							what := fmt.Sprintf("%s key%d L=%d enc=%v (round %d of a history on reused buffers)", modeNames[mode], ki, L, enc, round)
+							if c.Guard("reuse-panic:"+modeNames[mode], what, nil, func() { got, _ = call(mode, keyBuf, in, enc) }) {
+								continue
+							}
+							if !bytes.Equal(got, want) {
+								c.Violate("reuse-history-value:"+modeNames[mode], what+fmt.Sprintf(": got %s want %s", pu.Hex(got), pu.Hex(want)), nil, nil)
+							}
+							outs = append(outs, kept{got, append([]byte{}, want...), what})
+							for i := range dataBuf {
+								dataBuf[i] = 0xEE
+							}
+							for i := range keyBuf {
+								keyBuf[i] = 0xEE
+							}
+						}
+					}
+				}
+			}
+		}
+		for _, o := range outs {
+			if !bytes.Equal(o.got, o.want) {
+				c.Violate("reuse-output-aliases-input", "an output returned earlier changed after the caller reused its input/key buffers: "+o.what, nil, nil)
+				break
+			}
+		}
+		c.Sample("2 rounds x 3 keys x 4 modes x lengths {0,5,16,33} x enc/dec on one reused key buffer and one reused data buffer; outputs re-checked at the end")
+	}}
+}
+
 // Prop registers C11.
 var Prop = &harness.Prop{
 	ID:    "C11",
@@ -218,6 +279,7 @@ var Prop = &harness.Prop{
 				u = append(u, unit(k, m))
 			}
 		}
+		u = append(u, reuseUnit())
 		return u
 	},
 }
